@@ -10,8 +10,8 @@ GEN_EXPR = "prqlc/prqlc/src/sql/gen_expr.rs"
 KEYWORDS = "prqlc/prqlc/src/sql/keywords.rs"
 DIALECT = "prqlc/prqlc/src/sql/dialect.rs"
 
-LABELS = ["IK1", "DK1", "IQ1", "IQ2", "IQ3"]
-FUNCTIONS = ["is_keyword", "dialect_keywords", "translate_ident_part"]
+LABELS = ["IK1", "DK1", "IQ1", "IQ1q", "IQ2", "IQ3", "QI1"]
+FUNCTIONS = ["is_keyword", "dialect_keywords", "translate_ident_part", "quoted_ident"]
 
 ASSUMED = [
     {"what": "HashSet<&'static str> is the shim StrSet (view: Set<Seq<char>>; contains is set membership)", "count": 3},
@@ -21,10 +21,14 @@ ASSUMED = [
     {"what": "valid_ident() (regex) is the uninterpreted predicate simple_ident()", "count": 3},
     {"what": "dyn DialectHandler is the opaque type Handler: ident_quoting_style() / ident_quote() are uninterpreted per handler", "count": 5},
     {"what": "sqlparser Ident::new / Ident::with_quote build (value, quote_style) as their names say", "count": 2},
+    {"what": "format!(\"{quote}{quote}\") is the quote char twice and str::replace(quote, that) doubles every occurrence: together quote_doubled() "
+             "(double_quote_chars, one external function for the two statements' effect)", "count": 2},
 ]
 TRUSTED = [
     "the regex of valid_ident and the keyword tables are not inspected (contents assumed adequate)",
-    "sqlparser's Display for Ident escapes the quote character inside quoted identifiers",
+    "sqlparser 0.60's Display for a quoted Ident prints a quote char that is followed by another one AS IT IS and doubles only the others (value.rs "
+    "EscapeQuotedString) - so the value of a quoted identifier must already have every quote char doubled, which Display then leaves unchanged",
+    "oracle (C09): a quoted identifier that a SQL lexer reads back (two quote chars = one) is exactly the PRQL name",
 ]
 
 PRELUDE = r"""
@@ -98,6 +102,9 @@ pub mod keywords {
     pub use super::is_keyword;
 }
 
+pub uninterp spec fn quote_doubled(s: Seq<char>, q: char) -> Seq<char>;     // s with every occurrence of q doubled
+#[verifier::external_body]
+pub fn double_quote_chars(ident: &String, quote: char) -> (r: String) ensures r@ == quote_doubled(ident@, quote), { unimplemented!() }
 // ---------------------------------------------------------------- oracle (property C09)
 pub open spec fn dialect_kw(d: Dialect) -> Set<Seq<char>> {
     match d { Dialect::Redshift => redshift_kw(), _ => Set::<Seq<char>>::empty() }
@@ -132,10 +139,82 @@ def build(X):
     tip.ret_name("r")
     tip.contract("""
         ensures
-            r.value == ident, // @IQ1
+            // a bare identifier is the name itself; a quoted one is the name with the quote char doubled (what a SQL lexer reads back as the name)
+            r.quote_style is None ==> r.value == ident, // @IQ1
+            r.quote_style is Some ==> r.value@ == quote_doubled(ident@, r.quote_style->0), // @IQ1q
             // bare only if the identifier is simple and not a keyword (and the dialect quotes conditionally)
             r.quote_style is None ==> (simple_ident(ident@) && !keyword(ident@, ctx.dialect_enum)
                                       && ctx.dialect.spec_style() is ConditionallyQuoted), // @IQ2
             r.quote_style is Some ==> r.quote_style == Some(ctx.dialect.spec_quote()), // @IQ3
     """)
-    return PRELUDE + "\n".join([dialect.text, style.text, dk.text, ik.text, tip.text]) + "\n} // verus!\nfn main() {}\n"
+    import re as _re
+    from extract import ExtractionError
+    try:
+        qi = X.fn(GEN_EXPR, "quoted_ident").pub_all()
+    except ExtractionError:
+        qi = None
+    if qi is not None:
+        m = _re.search(r"let doubled = format!\(\"\{quote\}\{quote\}\"\);\s*sql_ast::Ident::with_quote\(quote, ident\.replace\(quote, &doubled\)\)", qi.text)
+        if m:
+            qi.text = qi.text[:m.start()] + "sql_ast::Ident::with_quote(quote, double_quote_chars(&ident, quote))" + qi.text[m.end():]
+            qi.rewrites.append({"rule": "R5", "what": "`let doubled = format!(\"{quote}{quote}\"); .. ident.replace(quote, &doubled)` -> double_quote_chars(&ident, quote)"})
+        qi.ret_name("r")
+        qi.contract("ensures r.value@ == quote_doubled(ident@, quote) && r.quote_style == Some(quote), // @QI1")
+        qi_text = qi.text
+    else:
+        # the helper does not exist (older tree): the obligation QI1 has nothing to attach to; IQ1q then fails on its own
+        qi_text = "// no fn quoted_ident in gen_expr.rs // @QI1\npub fn quoted_ident(quote: char, ident: String) -> sql_ast::Ident { sql_ast::Ident::with_quote(quote, ident) }\n"
+    return PRELUDE + "\n".join([dialect.text, style.text, dk.text, ik.text, qi_text, tip.text]) + "\n} // verus!\nfn main() {}\n"
+
+
+# ----------------------------------------------------------------------------- replay / sweep on the real compiler + SQLite
+SWEEP_DOC = ("columns and a table whose names contain spaces, keywords, mixed case, non-ASCII text, quote characters and runs of quote characters: `from <table> | select "
+             "{..}` compiled by the real prqlc for sql.sqlite and executed on a SQLite table with exactly those names; every value must come back under its own name")
+
+_NAMES = ["a b", "select", "MixedCase", "ünï çødé", 'x"y', 'a""b', 'q"""r', "it's", "table_0", "_expr_0", "with.dot"]
+
+
+def _sq(n):
+    return '"' + n.replace('"', '""') + '"'
+
+
+def _try(table, names):
+    import sqlite3
+    import replaylib
+    prql = "from `%s`\nselect {%s}\n" % (table, ", ".join("`%s`" % n for n in names))
+    rec = {"obligation": "ident_quote.IQ1q", "input": prql, "replay_kind": "idents", "table": table, "names": names,
+           "expected": "columns %r with values %r" % (names, list(range(1, len(names) + 1)))}
+    ok, sql = replaylib.compile_prql(prql, "sql.sqlite")
+    if not ok:
+        rec.update(failing="PANIC" in sql, observed=sql[:300])
+        return rec
+    c = sqlite3.connect(":memory:")
+    # a decoy column for every name with one quote less in each run, to see a mis-escaped reference land on the wrong column
+    decoys = sorted({n.replace('""', '"') for n in names if '""' in n} - set(names))
+    c.execute("create table %s (%s)" % (_sq(table), ", ".join("%s int" % _sq(n) for n in names + decoys)))
+    c.execute("insert into %s values (%s)" % (_sq(table), ", ".join(str(i + 1) for i in range(len(names))) + "".join(", -1" for _ in decoys)))
+    try:
+        cur = c.execute(sql)
+        rows = cur.fetchall()
+        cols = [d[0] for d in cur.description]
+    except Exception as e:
+        rec.update(failing=True, observed="SQLite: %s" % e, sql=sql)
+        return rec
+    good = rows == [tuple(range(1, len(names) + 1))] and cols == names
+    rec.update(failing=not good, observed="columns %r values %r" % (cols, rows), sql=sql)
+    return rec
+
+
+def sweep():
+    return [_try("my table", _NAMES)] + [_try('t"x', [n]) for n in _NAMES]
+
+
+def replay(failure):
+    for r in sweep():
+        if r["failing"]:
+            return r
+    return {"failing": False}
+
+
+def rerun(doc):
+    return _try(doc["table"], doc["names"])
